@@ -463,6 +463,10 @@ class Coordinator(object):
 
         def rejoin_d_errback(result):
             log.error("%s error during join_and_sync: %s", self, result)
+            if result.check(KafkaError):
+                # e.g. the topic metadata load failed. Don't sit idle: rejoin
+                # after the backoff rejoin_after_error() picks for the error.
+                self.rejoin_after_error(result, label="join_and_sync")
 
         self._rejoin_d = d = self._join_and_sync()
         d.addBoth(cleanup_rejoin_d).addErrback(rejoin_d_errback)
